@@ -1,7 +1,7 @@
 #!/venv/bin/python
 """Development aid: apply a benign_fuzz transformation to a module and list the functions that are NOT recognised as equivalent to
 their reference, with a unified diff of the two canonical forms.   usage: tools/canon_diff.py pyrex/earth_model.py hoist [qual-substring]"""
-import ast, sys, pathlib, difflib, importlib.util
+import ast, os, sys, pathlib, difflib, importlib.util
 HERE = pathlib.Path(__file__).resolve().parents[1]
 sys.path.insert(0, str(HERE))
 from pvx import variants as bf
@@ -9,7 +9,7 @@ from pvx.core import canon
 from pvx.core.source import strip_inert, normalise_if_polarity
 rel, kind = sys.argv[1], sys.argv[2]
 sub = sys.argv[3] if len(sys.argv) > 3 else ""
-src = (pathlib.Path("/repo") / rel).read_text()
+src = (pathlib.Path(os.environ.get("PVX_ROOT", "/repo")) / rel).read_text()
 new = bf.transform(src, kind) if kind != "none" else src
 tree = ast.parse(new); strip_inert(tree); normalise_if_polarity(tree)
 mod = rel[:-3].replace("/", ".")
